@@ -17,9 +17,13 @@ import json
 import random
 import sys
 
-import jax
+import os
 
-jax.config.update("jax_enable_x64", True)
+import jax
+import numpy as np
+
+X64 = os.environ.get("VERIF_X64", "1") == "1"          # the near-tie pass runs in a subprocess with VERIF_X64=0
+jax.config.update("jax_enable_x64", X64)
 
 from engine import observe, tlc, tracecheck  # noqa: E402
 from engine.report import Report, main_guard, tier  # noqa: E402
@@ -206,10 +210,66 @@ def real_runs(rep: Report, rng: random.Random, count: int, ftd: list):
         rep.count(1, ("real", i, json.dumps(kw, sort_keys=True)))
 
 
+def near_tie_runs(count: int, seed: int, ftd: list):
+    """float32 (the library's default dtype): validation losses of several batches per epoch whose epoch means differ by
+    less than one float32 ulp or not at all.  Whatever precision the loop keeps its history in, it must stop by the rule
+    evaluated on the history it returns (which enters the trace as ranks, ties preserved)."""
+    import jax.numpy as jnp
+    import optax
+    rng = random.Random(seed)
+    S = observe.RealDataSession()
+    for i in range(count):
+        a, b, m = rng.randrange(1, 4), rng.randrange(0, 3), rng.choice([2, 3, 4])
+        base = rng.choice([1.0, 2.0, 0.75])
+        ulp = float(np.spacing(np.float32(base)))
+
+        def inner(params, static, x, condition=None, key=None, a=a, b=b, m=m, base=base, ulp=ulp):
+            theta = params[0]
+            k = jnp.mod(a * jnp.round(jnp.abs(theta)) + b * x[0, 0], m)
+            return (base + k * ulp) + theta * 2.0**-100          # the last term only carries the gradient
+
+        n = rng.choice([8, 11, 14])
+        x = jnp.stack([jnp.arange(n, dtype=jnp.float32) + 1.0, jnp.zeros(n, jnp.float32)], axis=1)
+        kw = dict(max_epochs=rng.randrange(3, 9), patience=rng.randrange(0, 3), batch=rng.choice([1, 2]),
+                  val_prop=rng.choice([0.3, 0.5]), return_best=bool(i % 2), seed=7000 + i)
+        t, finite = S.run(dist=(jnp.asarray(0.0, jnp.float32),), x=x, condition=None, optimizer=optax.sgd(2.0**100), inner=inner, **kw)
+        t["cfg"]["neartie"] = [a, b, m, base]
+        ftd.append(t)
+
+
+def near_tie_pass(rep: Report, count: int, ftd: list):
+    import subprocess
+    import tempfile
+    with tempfile.NamedTemporaryFile(suffix=".json", delete=False) as f:
+        out = f.name
+    p = subprocess.run([sys.executable, "-m", "harness.c16", "--worker32", str(count), "--out", out], env=dict(os.environ, VERIF_X64="0"),
+                       stdout=subprocess.PIPE, stderr=subprocess.STDOUT, text=True, timeout=1800)
+    try:
+        data = json.loads(open(out).read())
+    except Exception:  # noqa: BLE001
+        rep.machinery_failure(f"float32 worker failed: {p.stdout[-1500:]}")
+        return
+    finally:
+        os.unlink(out)
+    for t in data:
+        ftd.append(t)
+        rep.count(1, ("neartie", json.dumps(t["cfg"], sort_keys=True)))
+    rep.set("near_tie_float32_traces", len(data))
+
+
 def main():
     ap = argparse.ArgumentParser()
     ap.add_argument("--replay")
+    ap.add_argument("--worker32", type=int)
+    ap.add_argument("--out")
     a = ap.parse_args()
+    if a.worker32 is not None:
+        from engine.report import _jsonable
+        from engine.report import seed as _seed
+        tr: list = []
+        near_tie_runs(a.worker32, _seed() + 16, tr)
+        open(a.out, "w").write(json.dumps(_jsonable(tr)))
+        return 0
     t = tier()
     thorough = t == "thorough"
     rep = Report(PID, t, "model_checking")
@@ -239,6 +299,7 @@ def main():
     replay_variational(rep, vcases, rng, 10_000, var_traces)
     random_traces(rng, 300 if thorough else 60, ftd_traces, var_traces)
     real_runs(rep, rng, 40 if thorough else 8, ftd_traces)
+    near_tie_pass(rep, 120 if thorough else 24, ftd_traces)
     s1 = tracecheck.check(rep, "Trace_FitToData", "Trace_FitToData_I.cfg", ftd_traces, FTD_GUARDS, pid=PID)
     s2 = tracecheck.check(rep, "Trace_FitVariational", "Trace_FitVariational_I.cfg", var_traces, VAR_GUARDS, pid=PID)
     rep.set("traces_validated_against_impl", len(ftd_traces) + len(var_traces))
